@@ -517,6 +517,31 @@ def loop_certificates(ctx, f, header, body):
                         grows = True
             if incs and not other_defs and not grows and _loop_cycle_passes(pg, f, header, body, incs):
                 certs.append("COUNTER(%s < %s)" % (var, bound[:30]))
+    # COUNTDOWN: a variable strictly decremented on every cycle, with an exit when it reaches zero
+    for (b, k, tgt) in exits:
+        if f.blocks[b]["term"]["t"] != "switch":
+            continue
+        val, vals = _edge_label(f, b, k)
+        for a in g.describe_all(b, val, vals):
+            m = re.match(r"^\((?:Eq|Le)\((var:\w+),const:0\)\)$", a) or re.match(r"^\(Lt\((var:\w+),const:1\)\)$", a)
+            if not m:
+                continue
+            var = m.group(1)
+            names = {nm: l for l, nm in f.debug_names().items()}
+            l = names.get(var[4:])
+            if l is None:
+                continue
+            decs, other_defs = set(), False
+            for d in pr.defs.get(l, []):
+                if d[0] not in body:
+                    continue
+                dp = pr._def(d, 0, ())
+                if re.match(r"^Sub\(%s,const:[1-9]\d*\)$" % re.escape(var), dp):
+                    decs.add(("t", d[0]) if d[1] == "t" else ("s", d[0], d[1]))
+                else:
+                    other_defs = True
+            if decs and not other_defs and _loop_cycle_passes(pg, f, header, body, decs):
+                certs.append("COUNTDOWN(%s)" % var)
     # link-field walks
     links = tbl.get("link_fields", ["left_sibling", "right_sibling", "child"])
     carried_from_link = False
